@@ -16,6 +16,9 @@ directly; a pair that is not in the table does not open.
   fg <host> <iv> <12 FgData tokens> <hostname> <oracle>
                                         hostname built by the harness's Floodgate-encoder twin → ReadHostname
   wr <host> <12 BedrockData tokens>     WriteHostname → harness's Floodgate-decoder twin
+  cenc <plain> <oracle>                 Encrypt on a Floodgate instance shared by several goroutines → returned blob
+  cnonce <blob1> <blob2>                two returned blobs the harness found to carry the same nonce
+  csum <keylen> <goroutines> <rounds>   summary of the concurrent probe
 -/
 namespace Gate.C39
 open Gate
@@ -158,6 +161,35 @@ def step (c : Case) : String × String :=
         (showRead (readHostname (oracleOpen orc) hn), v)
       | _, _ => ("bad-op", "-")
     | _, _, _, _ => ("bad-op", "-")
+  -- concurrent probe: goroutines sharing ONE Floodgate instance.  The IV is random, so the blob cannot be
+  -- predicted: the model column echoes the implementation, the verdict is the model's framing/round-trip
+  -- relation (`decrypt_encrypt_id`) evaluated on the returned bytes with the harness's own AES-GCM as oracle.
+  | "cenc", [pl, o] => match parseHex pl, parseOracle o with
+    | some plain, some orc =>
+      let v := if crashed c.impl then "viol:crash" else
+        match c.impl.splitOn " " with
+        | ["ok", e] => match parseHex e with
+          | some enc => match decrypt (oracleOpen orc) enc with
+            | .ok q => if q = plain then "ok" else "viol:ciphertext-corrupted"
+            | .error _ => "viol:ciphertext-corrupted"
+          | none => "viol:ciphertext-corrupted"
+        | _ => "viol:ciphertext-corrupted"
+      (c.impl, v)
+    | _, _ => ("bad-op", "-")
+  | "cnonce", [e1, e2] => match parseHex e1, parseHex e2 with
+    | some b1, some b2 =>
+      if (ivOf b1).isSome && ivOf b1 = ivOf b2 then ("same-nonce", "viol:nonce-reuse") else ("distinct", "-")
+    | _, _ => ("bad-op", "-")
+  | "csum", [_, g, r] => match g.toNat?, r.toNat? with
+    | some g, some r =>
+      let want := "total=" ++ toString (g * r) ++ " fail=0 dup=0 panic=0"
+      let has (k : String) : Bool := (c.impl.splitOn " ").any fun t => t.startsWith k && !(t == k ++ "0")
+      let v := if c.impl = want then "ok"
+               else if has "panic=" then "viol:crash"
+               else if has "fail=" then "viol:ciphertext-corrupted"
+               else if has "dup=" then "viol:nonce-reuse" else "viol:ciphertext-corrupted"
+      (want, v)
+    | _, _ => ("bad-op", "-")
   | "wr", host :: rest =>
     match parseHex host, parseData rest with
     | some host, some d =>
